@@ -83,7 +83,6 @@ Section Glue.
         rewrite IH; reflexivity.
     - change (match m_base m with Some b => is_written dep (OReg b) (relab phi l) | None => false end)
         with (match m_base m with Some b => is_written dep (OReg b) l | None => false end).
-      destruct (andb (m_pre m) _); [reflexivity|]. destruct (andb (m_post m) _); [reflexivity|].
       change (is_memload m (relab phi l)) with (is_memload m l).
       change (is_memstore m (relab phi l)) with (is_memstore m l).
       destruct (is_memstore m l); destruct (is_memload m l _); cbn [map app]; try reflexivity; rewrite IH; reflexivity.
@@ -310,7 +309,7 @@ Section Glue.
   Proof.
     intros Hn. unfold find_depending. induction (dsts l) as [|d ds IH]; [reflexivity|].
     cbn [flat_map]. rewrite !flags_to_app, IH. f_equal.
-    destruct (scan_prefix_determined dep fd d pre post (update_changes [] (l_chg l))) as (tail & E & Htail).
+    destruct (scan_prefix_determined dep fd d pre post (update_changes (update_changes [] (l_chg l)) (l_chg_post l))) as (tail & E & Htail).
     rewrite E, flags_to_app, (flags_to_none t tail), app_nil_r; [reflexivity|].
     intros [n f] Hin Et. cbn [fst] in Et. subst n. destruct (Htail _ _ Hin) as (l0 & Hl0 & E0).
     apply Hn. rewrite <- E0. apply in_map. exact Hl0.
